@@ -48,6 +48,8 @@ def wrap_depth(t):
 
 
 # ---------------------------------------------------------------------------------- frozen tables
+# attributes whose value is immutable metadata of an array-like object (reading them never yields an alias of the object's content)
+IMMUTABLE_META = {"shape", "ndim", "size", "dtype", "nbytes", "itemsize"}
 # attribute classification (one line of reason each)
 CONF_ATTRS = {
     "compress_config": "configuration object, not part of the represented state",
@@ -843,6 +845,8 @@ class FuncAnalyzer:
         base = self.ev(e.value, env)
         if not base.tags:
             return EMPTY
+        if e.attr in IMMUTABLE_META:
+            return EMPTY            # array metadata: ints / tuples of ints / dtype objects; nothing that could be mutated through the result
         out = set()
         types = None
         for t in base.objs():
